@@ -23,7 +23,7 @@ import re
 from typing import Any
 
 from .. import ilfacts, isa, mdfacts
-from ..absint import AbsEval, Raised
+from ..absint import AbsEval, Raised, Unknown
 from ..bits import BitVec, show_bit
 from ..core import REPO, AnalysisError, Ctx
 from ..isa_abs import ASSUMPTIONS
@@ -358,16 +358,26 @@ def intrinsics(ctx: Ctx, py: PyProgram, rs: RustProgram) -> None:
     for pyfn, rsfn, pstate in pairs:
         mem, regs, st = _Mem(), _Regs(), _State()
         ev = AbsEval(py, mod, {}, [500000])
+        value_branch = None
         try:
             ev.call(ev.name(pyfn), [None, None, regs, mem, st, None, None], {})
         except (Raised,) as e:
             raise AnalysisError(f"{pyfn} raised {e.cls_name} under abstract execution")
+        except Unknown as e:
+            value_branch = str(e)
         it = _RsLow(rs)
         args = ["BUS", "STATE"] + ([pstate] if pstate is not None else [])
         try:
             it.call(rsfn, args)
         except RsNotConst as e:
             raise AnalysisError(f"{rsfn} left the foldable fragment: {e}")
+        if value_branch is not None:
+            # the Rust sibling folded completely (its effect is the same for every machine state) while the Python intrinsic takes a
+            # branch on a register/memory value: the two cannot agree for both outcomes of that branch
+            n += 1 + len([a for a in it.mem.writes if a >= 0x100000])
+            ctx.violation("C04.6/intrinsic-effects", key_of(rel, pyfn, "effect depends on a run-time value"),
+                          f"{pyfn}: {value_branch} - the documented effect and the Rust sibling {rsfn} are unconditional, the Python intrinsic's effect depends on that value", rel)
+            continue
         base = 0x100000
         pyw = {a: v for a, v in mem.writes.items() if a >= base}
         rsw = {a: v for a, v in it.mem.writes.items() if a >= base}
